@@ -194,21 +194,21 @@ theorem C20_run_ends_terminal (s : St) :
 
 /-- Happy path, reordered output: JOINED, rows in input order, order rotated, everything cleaned. -/
 example :
-    let s := run (init .muscle3 .reorder 4 "protein") [.start, .tick, .getState, .join false]
+    let s := run (init .muscle3 .reorder 4 "protein") [.start, .tick, .getState, .join .none]
     s.state = .joined ∧ s.result = some ([0, 1, 2, 3], [1, 2, 3, 0]) ∧ s.cleanups = 1 ∧ s.files = 0 ∧ s.child = .dead := by
   decide
 
 /-- Exit code ≠ 0 (the former leak): CANCELLED *and* cleaned. -/
 example :
-    let s := run (init .clustalo .exit3 3 "protein") [.start, .tick, .join false]
+    let s := run (init .clustalo .exit3 3 "protein") [.start, .tick, .join .none]
     s.state = .cancelled ∧ s.cleanups = 1 ∧ s.files = 0 := by decide
 
 /-- Unparsable output. -/
-example : (step (run (init .mafft .garbageMissing 3 "protein") [.start]) (.join false)).2 = .err errEval := by decide
+example : (step (run (init .mafft .garbageMissing 3 "protein") [.start]) (.join .none)).2 = .err errEval := by decide
 
 /-- Output with the right headers and equal row lengths but a wrong symbol count is rejected, and cleaned up after. -/
 example :
-    let s := run (init .muscle5 .garbageLength 3 "protein") [.start, .join false]
+    let s := run (init .muscle5 .garbageLength 3 "protein") [.start, .join .none]
     s.state = .cancelled ∧ s.result = none ∧ s.cleanups = 1 ∧ s.files = 0 := by decide
 
 /-- Missing binary with a changed exec dir (the former cwd leak): CANCELLED, cleaned, cwd restored. -/
@@ -224,18 +224,28 @@ example :
 /-- A program killed by a signal after writing complete, valid output has *failed* (return code −9 ≠ 0): `join` raises,
 no result becomes readable, clean-up runs. -/
 example :
-    let r := step (run (init .muscle5 .sigkill 3 "protein") [.start, .tick]) (.join false)
+    let r := step (run (init .muscle5 .sigkill 3 "protein") [.start, .tick]) (.join .none)
     r.2 = .err errSubprocess ∧ r.1.state = .cancelled ∧ r.1.result = none ∧ r.1.cleanups = 1 ∧
     (step r.1 (.method "get_alignment")).2 = .err .stateError := by decide
 
+/-- The boundary timeout 0 ("do not wait") on an unfinished job is a timeout — for the generic `Application.join` and for
+`LocalApp.join` — not "no timeout". -/
+example :
+    (step (run (init .base .ok 2 "protein") [.start]) (.join .zero)).2 = .err errTimeout ∧
+    (run (init .base .hang 2 "protein") [.start, .join .zero]).state = .cancelled ∧
+    (run (init .clustalo .ok 3 "protein") [.start, .join .zero]).cleanups = 1 := by decide
+
+/-- A hanging program that ignores SIGTERM is gone after `cancel()` as well. -/
+example : (run (init .clustalo .hangIgnoreTerm 2 "protein") [.start, .cancel]).child = .dead := by decide
+
 /-- Timeout on a hanging program: the child is killed. -/
 example :
-    let s := run (init .mafft .hang 2 "nucleotide") [.start, .join true]
+    let s := run (init .mafft .hang 2 "nucleotide") [.start, .join .pos]
     s.state = .cancelled ∧ s.child = .dead ∧ s.cleanups = 1 := by decide
 
 /-- A refusal that is really refused, and a state in which the same call is accepted. -/
 example : (step (init .clustalo .ok 3 "protein") (.method "get_alignment")).2 = .err .stateError := by decide
-example : (step (run (init .clustalo .ok 3 "protein") [.start, .join false]) (.method "get_alignment")).2 = .ok "r0,r1,r2" := by
+example : (step (run (init .clustalo .ok 3 "protein") [.start, .join .none]) (.method "get_alignment")).2 = .ok "r0,r1,r2" := by
   decide
 
 /-- `C20_order_restored` applies to a genuinely permuted output. -/
